@@ -576,6 +576,13 @@ class DimensionValue(Value):
             sign, v, d = self.__reUnNumDim.findall(normalize(item.value))[0]
             if '.' in v:
                 val = float(sign + v)
+                if val in (float('inf'), float('-inf')):
+                    # nothing to calculate with and nothing to serialise
+                    self.wellformed = False
+                    self._log.error(
+                        'DimensionValue: Number too large: %s' % self._valuestr(cssText)
+                    )
+                    return
             else:
                 val = int(sign + v)
 
